@@ -671,9 +671,13 @@ class ExtendedKalmanFilter:
             covariance.data, np.matmul(H_t.transpose(), S_inv)
         )
 
-        next_covariance = covariance.data - np.matmul(
-            K_t, np.matmul(H_t, covariance.data)
-        )
+        # Joseph form: (I - K H) Sigma (I - K H)^T + K Q K^T. Algebraically equal to
+        # Sigma - K H Sigma, but symmetric and positive semi-definite by construction, so
+        # rounding error in K (an ill-conditioned S) cannot make the result invalid
+        I_KH = np.eye(self.state_size) - np.matmul(K_t, H_t)
+        next_covariance = np.matmul(
+            I_KH, np.matmul(covariance.data, I_KH.transpose())
+        ) + np.matmul(K_t, np.matmul(Q_t.data, K_t.transpose()))
 
         next_state = state.data + np.matmul(K_t, innovation)
 
